@@ -6,7 +6,8 @@ pub struct TaskName { pub action: bool }
 impl TaskName { pub fn is_action(&self) -> (r: bool) ensures r == self.action { self.action } }
 pub enum MAct { Joined(Result<TaskName, CriticalError>), CloseEvents, Shutdown }
 pub struct MEnv { pub log: Ghost<Seq<MAct>>, pub action_ended: Ghost<bool>, pub events_closed: Ghost<bool>, pub shut_down: Ghost<bool>,
-    pub crit_seen: Ghost<bool> }     // a worker has ended with a critical error other than the graceful-exit request
+    pub crit_seen: Ghost<bool>,      // a worker has ended with a critical error other than the graceful-exit request
+    pub exit_seen: Ghost<bool> }     // a worker has ended with the graceful-exit request (CriticalError::Exit)
 // tokio::task::JoinSet of the five workers
 pub struct JoinSetS;
 impl JoinSetS {
@@ -16,18 +17,20 @@ impl JoinSetS {
         ensures final(env).events_closed == old(env).events_closed, final(env).shut_down == old(env).shut_down,
             r matches Some(Ok(res)) ==> final(env).action_ended@ == (old(env).action_ended@ || (res is Ok && res->Ok_0.action)),
             r matches Some(Ok(res)) ==> final(env).crit_seen@ == (old(env).crit_seen@ || (res is Err && !(res->Err_0 is Exit))),
+            r matches Some(Ok(res)) ==> final(env).exit_seen@ == (old(env).exit_seen@ || (res is Err && res->Err_0 is Exit)),
+            !(r matches Some(Ok(_))) ==> final(env).exit_seen == old(env).exit_seen,
             !(r matches Some(Ok(_))) ==> final(env).crit_seen == old(env).crit_seen,
             !(r matches Some(Ok(_))) ==> final(env).action_ended == old(env).action_ended,
     { unimplemented!() }
     // shutdown().await: aborts every remaining worker and waits for them
     #[verifier::external_body]
     pub fn shutdown(&mut self, env: &mut MEnv)
-        ensures final(env).shut_down@, final(env).action_ended == old(env).action_ended, final(env).events_closed == old(env).events_closed, final(env).crit_seen == old(env).crit_seen { unimplemented!() }
+        ensures final(env).shut_down@, final(env).action_ended == old(env).action_ended, final(env).events_closed == old(env).events_closed, final(env).crit_seen == old(env).crit_seen, final(env).exit_seen == old(env).exit_seen { unimplemented!() }
 }
 pub struct EvTx;
 impl EvTx {
     // closing the event queue makes throttle_collect return Ok(None): the action worker ends
     #[verifier::external_body]
     pub fn close(&self, env: &mut MEnv) -> (r: bool)
-        ensures final(env).events_closed@, final(env).action_ended == old(env).action_ended, final(env).shut_down == old(env).shut_down, final(env).crit_seen == old(env).crit_seen { unimplemented!() }
+        ensures final(env).events_closed@, final(env).action_ended == old(env).action_ended, final(env).shut_down == old(env).shut_down, final(env).crit_seen == old(env).crit_seen, final(env).exit_seen == old(env).exit_seen { unimplemented!() }
 }
